@@ -136,6 +136,8 @@ pub mod c04_seq_lemmas {
 }
 broadcast use vp_try_ax::axiom_conv_identity, c04_origin_ax::axiom_origin_internal, c04_origin_ax::axiom_origin_quic, c04_seq_lemmas::lemma_skip0;
 
+// what h3 hands to `SendStream::send_data` (h3/src/stream.rs WriteBuf; its `Buf` impl is C14's) — opaque here
+#[verifier::external_body] #[verifier::reject_recursive_types(B)] pub struct WriteBuf<B> { p: PhantomData<B> }
 // ------------------------------------------------------------------ shim: the transport (the adversary)
 pub mod quic {
     use super::*;
@@ -151,7 +153,7 @@ pub mod quic {
         // weakest contracts: any answer at any time
         fn poll_ready(&mut self, cx: &mut Context<'_>) -> (r: Poll<Result<(), StreamErrorIncoming>>);
         fn poll_finish(&mut self, cx: &mut Context<'_>) -> (r: Poll<Result<(), StreamErrorIncoming>>);
-        fn send_data<T>(&mut self, data: T) -> (r: Result<(), StreamErrorIncoming>);
+        fn send_data<T: Into<WriteBuf<B>>>(&mut self, data: T) -> (r: Result<(), StreamErrorIncoming>);
     }
     pub trait OpenStreams<B: Buf> {
         type BidiStream;
@@ -234,6 +236,8 @@ impl<S, B> BufRecvStream<S, B> {
     pub uninterp spec fn ended(&self) -> bool;
     pub uninterp spec fn sid(&self) -> int;
     pub uninterp spec fn stops(&self) -> Seq<u64>;
+    /// the most recent poll of the transport stream answered Pending (so its waker is registered, quic trait contract)
+    pub uninterp spec fn last_poll_pending(&self) -> bool;
     pub open spec fn buffered(&self) -> Seq<u8> { self.received().skip(self.consumed() as int) }
     pub open spec fn same_stream(&self, o: &Self) -> bool { self.sid() == o.sid() && self.stops() == o.stops() }
     #[verifier::external_body]
@@ -251,6 +255,7 @@ impl<S: RecvStream, B> BufRecvStream<S, B> {
     pub fn poll_read(&mut self, cx: &mut Context<'_>) -> (r: Poll<Result<bool, StreamErrorIncoming>>)
         ensures final(self).same_stream(old(self)), final(self).consumed() == old(self).consumed(),
             old(self).received().is_prefix_of(final(self).received()),
+            final(self).last_poll_pending() == (r is Pending),
             match r {
                 Poll::Ready(Ok(false)) => final(self).received().len() > old(self).received().len() && final(self).ended() == old(self).ended(),
                 Poll::Ready(Ok(true)) => final(self).received() == old(self).received() && final(self).ended(),
@@ -264,6 +269,7 @@ impl<S: RecvStream, B> BufRecvStream<S, B> {
     #[verifier::external_body]
     pub fn buf_mut(&mut self) -> (r: &mut BufList<Bytes>)
         ensures (*r)@ == old(self).buffered(), final(self).same_stream(old(self)), final(self).ended() == old(self).ended(),
+            final(self).last_poll_pending() == old(self).last_poll_pending(),
             ({ let a = (*r)@; let b = (*final(r))@;
                b.len() <= a.len() && b == a.skip(a.len() - b.len())
                    ==> final(self).received() == old(self).received() && final(self).consumed() == old(self).consumed() + (a.len() - b.len()) }),
@@ -286,13 +292,18 @@ impl<S: RecvStream, B> RecvStream for BufRecvStream<S, B> {
 //@attr #[verifier::reject_recursive_types(B)]
 //@end
 impl<S, B> FrameStream<S, B> {
+    /// ghost: number of frames `poll_next` has handed out on this stream so far (DESIGN §7c `taken`; the sequence
+    /// itself is not needed by any clause, its length is)
+    pub uninterp spec fn taken(&self) -> nat;
+    /// ghost: number of `poll_next` calls made on this stream
+    pub uninterp spec fn polls(&self) -> nat;
     // ASSUMED-FROM-UNIT: frames FrameStream::new
 //@extract h3/src/frame.rs :: impl FrameStream<S, B> :: fn new
 //@external_body
 //@attr #[verifier::external_body]
 //@ret r
 //@sig
-        ensures r.stream == stream, r.remaining_data == 0,
+        ensures r.stream == stream, r.remaining_data == 0, r.taken() == 0, r.polls() == 0,
 //@end
 }
 
